@@ -14,22 +14,27 @@ NOTE = ("Trusted: go/packages + go/ssa builder, the executor's semantics of ~35 
 CLAIMS = {
     "C01": ("every explicit panic, every implicit run-time panic site (nil deref, index/slice bounds, nil map write, div by zero, failed type assertion) and every "
             "loop/recursion budget reachable from autog.Layout is a solver query per cube; unsat = unreachable for all sizes/spacings/RNG picks within the bound; plus the real "
-            "phase1.Process with panic queries on a multigraph cube family (parallel copies, up to 7/8 edges)", "5 C01"),
+            "phase1.Process with panic queries on a multigraph cube family (parallel copies, up to 7/8 edges) and on a structured family of 5..11 nodes (a cycle next to an "
+            "acyclic part that the greedy breaker peels off first)", "5 C01"),
     "C02": ("output node/edge multisets and sizes compared with the input for all symbolic sizes and the four size-option modes", "5 C02"),
     "C03": ("band separation, downward flow and ArrowHeadStart <=> upward asserted on the returned coordinates for all symbolic sizes/spacings; plus in-package network-simplex "
-            "obligations from symbolic pre-states (pivot lemma, normalize+vbalance lemma, whole run with symbolic minimum lengths): every edge keeps its minimum length", "4 C03"),
+            "obligations from symbolic pre-states (pivot lemma, normalize+vbalance lemma, whole run with symbolic minimum lengths): every edge keeps its minimum length; "
+            "plus the same assertions with node names whose concatenations collide", "4 C03"),
     "C04": ("pairwise rectangle disjointness and same-band spacing asserted on the returned coordinates for all symbolic sizes/spacings; plus the positioners on arbitrary proper "
             "layered graphs (kernel, symbolic sizes)", "4 C04"),
     "C05": ("first/last route point vs. bottom-/top-centre of the endpoint rectangles and arrowhead end vs. ToID for all symbolic sizes/spacings", "5 C05"),
     "C06": ("per-style route shape assertions on the returned points for all symbolic sizes/spacings", "5 C06"),
-    "C07": ("self-composition: two calls with independent symbolic map-iteration orders must give identical results; inputs compared before/after", "5 C07"),
-    "C08": ("relational: the solver chooses an injective renaming from an adversarial alphabet; both runs (incl. their panic behaviour) must agree", "5 C08"),
-    "C09": ("relational: Layout(union) vs Layout(component) for every component, translation and side-by-side extents asserted symbolically", "5 C09"),
+    "C07": ("self-composition: two calls with independent symbolic map-iteration orders must give identical results; inputs compared before/after; plus a history of four "
+            "calls that combine two WithNodeSize maps (symbolic sizes): equal calls give equal results, both caller maps unmodified", "5 C07"),
+    "C08": ("relational: the solver chooses an injective renaming from an adversarial alphabet; both runs (incl. their panic behaviour) must agree; plus enumerated fixed "
+            "renamings (reversed order, helper-node names, rotation, names whose concatenations collide) with symbolic sizes", "5 C08"),
+    "C09": ("relational: Layout(union) vs Layout(component) for every component, translation and side-by-side extents asserted symbolically; incl. every connected 5-node DAG "
+            "with helper nodes as the first of two components", "5 C09"),
     "C10": ("the solver searches for a cheaper feasible layering (alt[i] symbolic) of the drawn orientation; unsat = optimal; contiguity asserted; plus in-package pivot lemma "
             "(arbitrary feasible tight spanning tree, symbolic layering / tree / lengths / weights; incl. 'stored cut values equal their definition after the pivot') and whole "
             "network simplex with symbolic minimum lengths", "4 C10"),
     "C11": ("bands compared with an independent longest-path computation on the drawn orientation; plus the real LongestPath.Process on DAG cubes with a solver-chosen "
-            "IsReversed flag per edge", "5 C11"),
+            "IsReversed flag per edge, incl. deep structured DAGs with up to 20/40 nodes", "5 C11"),
     "C12": ("monitor value vs crossings recounted from the returned route points for all symbolic widths/spacings (incl. 70-layer graphs); plus the real crossing counter vs the naive "
             "count with solver-chosen in-layer permutations and a symbolic layer index 0..100; plus the real weighted-median ordering on arbitrary layered graphs (cubes)", "4 C12"),
     "C13": ("crossings recounted from the returned route points of every rooted tree in every edge order, symbolic widths/spacings; plus the real weighted-median ordering on "
@@ -38,15 +43,19 @@ CLAIMS = {
             "symbolic at the smallest bound, one symbolic tail edge / cubes beyond, incl. a multigraph cube family with up to 7/8 edges", "5 C14"),
     "C16": ("band extent / midpoint / right-end identities asserted on the returned coordinates incl. helper nodes, symbolic sizes/spacings", "5 C16"),
     "C17": ("relational: layout of (sizes, spacings) vs layout of 2^k * (sizes, spacings) for symbolic sizes/spacings", "5 C17"),
-    "C18": ("layout with vs. without monitor; all histories of k calls (panicking / normal, with / without monitor) with the engine's panic+defer semantics", "5 C18"),
+    "C18": ("layout with vs. without monitor (SinkColoring, VAlign, B&K x none/straight/polyline/ortho/spline routing); all histories of k calls (panicking / normal, with / "
+            "without monitor) with the engine's panic+defer semantics", "5 C18"),
     "C19": ("real Triangulate+Shortest on corridor cubes with symbolic start/end x; inside-corridor and tautness (<=> shortest) asserted, panic sites as queries", "5 C19"),
 }
 CLAIMS["C15"] = ("sufficient condition decided instead of interleavings: with no monitor supplied no reachable instruction writes package-level state (every store / map update / "
                  "in-place append / RNG step whose target is a package-level variable or an object allocated by a package initialiser is a query); a sat answer is confirmed "
                  "natively by concurrent calls under the race detector. Schedules themselves are not explored", "5 C15")
-CLAIMS["C20"] = ("PARTIAL: only the last sentence of the property (root finder) and only its algebraic branches are decided - solve1/solve2 sound and complete, solve3 Cardano "
-                 "branch (discriminant >= 0) sound and complete - in exact real arithmetic with z3 5.1.0 nlsat on the real code. Termination of FitSpline and containment of "
-                 "the fitted curve (hypot, normalisation, trigonometric root branch, unbounded recursion) cannot be encoded within reach and are NOT decided", "6")
+CLAIMS["C20"] = ("PARTIAL: decided in exact real arithmetic with z3 5.1.0 nlsat on the real code - (a) the root finder: solve1/solve2 sound and complete, solve3 sound and complete "
+                 "in the Cardano branch (discriminant >= 0) AND in the trigonometric branch (discriminant < 0; cos((atan2+2k*pi)/3) introduced by the triple-angle identity and its "
+                 "branch interval): every returned value is a root and every real root is returned; (b) curveIntersects / curveContained on control polygons whose polynomial "
+                 "against the barrier's line is linear, quadratic or constant, barrier end points and the curve parameter symbolic: exactly the intersections are returned, a "
+                 "crossing away from the barrier ends makes the curve 'not contained'. For genuinely cubic control polygons nlsat does not decide the intersection queries within "
+                 "600 s; termination of FitSpline and containment of the fitted curve as a whole (hypot, normalisation, general division, unbounded recursion) are NOT decided", "6")
 NA = {}
 
 checks = []
